@@ -186,8 +186,16 @@ type refStats struct {
 	emptyFalseOddSpace  int // :empty false only because of U+00A0 / U+000B / U+0085 … (Go's TrimSpace would say blank)
 	rootFalseNestedHTML int // :root false on an element named html that is not the root (inside <svg>)
 	iflagUnicodeOnly    int // i flag: values equal under Unicode folding but not under ASCII folding => no match
-	notListMixed        int // :not(A, B …) evaluated on an element matching some but not all arguments
-	isListMixed         int // :is(A, B …) likewise
+	// word lists (class selector, ~=): which separator delimited the matching word, and the cases
+	// that distinguish CSS white space from a wider notion of white space
+	wordDelim            [5]int // the matching word is delimited (before or after) by SPACE, TAB, LF, FF, CR
+	wordWholeValue       int    // the matching word is the whole attribute value
+	wordPseudoTrue       int    // true, but false if Go-only white space (U+00A0, U+000B, U+2003 ...) also separated words
+	wordPseudoFalse      int    // false, but true if Go-only white space also separated words
+	wordLookalikeInMatch int    // true on a word containing U+001C-U+001F / U+180E / U+200B / U+FEFF
+	idEdgeSpaceFalse     int    // #x false although the ID equals x after trimming white space
+	notListMixed         int    // :not(A, B …) evaluated on an element matching some but not all arguments
+	isListMixed          int    // :is(A, B …) likewise
 }
 
 type matcher struct {
@@ -205,6 +213,83 @@ func (m *matcher) eqVal(a, b string, ci bool) bool {
 	}
 	if ci && strings.EqualFold(a, b) {
 		m.st.iflagUnicodeOnly++ // evidence only: Unicode folding is NOT what the i flag means
+	}
+	return false
+}
+
+// wordMatch: is word one of the white-space-separated words of v?  (word is not empty and holds no
+// CSS white space.)  The words are delimited by the five CSS / HTML white space characters only.
+func (m *matcher) wordMatch(v, word string, ci bool) bool {
+	res := false
+	start := -1
+	for i := 0; i <= len(v); i++ {
+		if i < len(v) && !isASCIIWS(v[i]) {
+			if start < 0 {
+				start = i
+			}
+			continue
+		}
+		if start >= 0 {
+			if m.eqVal(v[start:i], word, ci) {
+				res = true
+				if start == 0 && i == len(v) {
+					m.st.wordWholeValue++
+				}
+				if start > 0 {
+					m.st.wordDelim[wsIndex(v[start-1])]++
+				}
+				if i < len(v) {
+					m.st.wordDelim[wsIndex(v[i])]++
+				}
+				break
+			}
+			start = -1
+		}
+	}
+	// evidence only: would a splitter that also breaks at Go's other white space characters
+	// (strings.Fields) have answered differently?
+	if mayHoldPseudoSpace(v) || mayHoldPseudoSpace(word) {
+		alt := false
+		for _, t := range strings.Fields(v) {
+			if t == word || (ci && lowerASCII(t) == lowerASCII(word)) {
+				alt = true
+			}
+		}
+		switch {
+		case res && !alt:
+			m.st.wordPseudoTrue++
+		case !res && alt:
+			m.st.wordPseudoFalse++
+		}
+		if res && strings.ContainsAny(word, "\x1c\x1d\x1e\x1f\u180e\u200b\ufeff") {
+			m.st.wordLookalikeInMatch++
+		}
+	}
+	return res
+}
+
+func wsIndex(c byte) int {
+	switch c {
+	case ' ':
+		return 0
+	case '\t':
+		return 1
+	case '\n':
+		return 2
+	case '\f':
+		return 3
+	case '\r':
+		return 4
+	}
+	panic("c05: not a white space character")
+}
+
+// mayHoldPseudoSpace: cheap filter (a vertical tab, an information separator or any non-ASCII byte).
+func mayHoldPseudoSpace(s string) bool {
+	for i := 0; i < len(s); i++ {
+		if c := s[i]; c >= 0x80 || c == '\v' || (c >= 0x1c && c <= 0x1f) {
+			return true
+		}
 	}
 	return false
 }
@@ -278,18 +363,18 @@ func (m *matcher) simple(s *Simple, e *rnode) bool {
 		// i.e. lower-cased against the (lower-case) local name
 		return e.name == lowerASCII(s.N)
 	case "class":
+		// HTML: the element's classes are the attribute value split on ASCII whitespace
 		v, ok := e.attr("class")
 		if !ok {
 			return false
 		}
-		for _, t := range splitASCIIWS(v) {
-			if t == s.N {
-				return true
-			}
-		}
-		return false
+		return m.wordMatch(v, s.N, false)
 	case "id":
+		// the element's ID is the attribute value, verbatim
 		v, ok := e.attr("id")
+		if ok && v != s.N && strings.TrimSpace(v) == strings.TrimSpace(s.N) {
+			m.st.idEdgeSpaceFalse++ // evidence only
+		}
 		return ok && v == s.N
 	case "attr":
 		v, ok := e.attr(lowerASCII(s.N))
@@ -302,15 +387,12 @@ func (m *matcher) simple(s *Simple, e *rnode) bool {
 		case "=":
 			return m.eqVal(v, s.V, s.I)
 		case "~=":
+			// "a whitespace-separated list of words, one of which is exactly" the operand; an operand that
+			// is empty or contains white space represents nothing.  White space = SPACE, TAB, LF, CR, FF.
 			if s.V == "" || hasASCIIWS(s.V) {
 				return false
 			}
-			for _, t := range splitASCIIWS(v) {
-				if m.eqVal(t, s.V, s.I) {
-					return true
-				}
-			}
-			return false
+			return m.wordMatch(v, s.V, s.I)
 		case "|=":
 			if m.eqVal(v, s.V, s.I) {
 				return true
